@@ -50,8 +50,9 @@ def cases(rng, tier):
         for mask in itertools.product([True, False], repeat=L):
             for order in (1, 2):
                 for periodic in (False, True):
-                    yield dict(kind="field1d", L=L, mask=list(mask), order=order, periodic=periodic,
-                               restrict=True, hexp=rng.randint(0, 3), sub=rng.getrandbits(32))
+                    for _rep in range(3 if L <= 4 else 1):
+                        yield dict(kind="field1d", L=L, mask=list(mask), order=order, periodic=periodic,
+                                   restrict=True, hexp=rng.randint(0, 3), sub=rng.getrandbits(32))
     for _ in range(40 if tier == "quick" else 600):
         spec = fieldio.gen_mesh_spec(rng, max_cells=90, nmax=7, bc_prob=0.6)
         yield dict(kind="field", mesh=spec, nvdim=rng.choice([1, 1, 2, 3]), order=rng.choice([1, 2]),
@@ -123,7 +124,7 @@ def run_impl(case):
         L, order = case["L"], case["order"]
         h = Fraction(1, 2 ** case["hexp"])
         mask = np.array(case["mask"], dtype=bool)
-        vals = np.array([float(rng.randint(-9, 9)) for _ in range(L)])
+        vals = np.array([float(v) for v in rng.sample(range(-20, 21), L)])  # distinct: no accidental zeros
         obs["vals"] = Qs(vals)
         obs["out"] = Qs(dfo._split_diff_combine(vals, mask, order, float(h)))
         line_oracle(lambda a, m: dfo._split_diff_combine(a, m, order, float(h)), L, mask, order, h, rng, fail)
@@ -140,7 +141,7 @@ def run_impl(case):
             f = df.Field(mesh, nvdim=1, value=a.reshape(L, 1), valid=m)
             return f.diff("x", order=order).array[:, 0]
 
-        vals = np.array([float(rng.randint(-9, 9)) for _ in range(L)])
+        vals = np.array([float(v * v * (1 if v % 2 else -1)) for v in rng.sample(range(-9, 10), L)])  # distinct, non-linear
         f = df.Field(mesh, nvdim=1, value=vals.reshape(L, 1), valid=mask, unit="T")
         g = f.diff("x", order=order, restrict2valid=case["restrict"])
         obs["field"] = fieldio.field_json(f)
